@@ -92,10 +92,11 @@ template <class F> static std::string classify(F f) {
 	catch (const std::exception&) { return "EXC std_exception"; }
 	catch (...) { return "EXC non_std"; }
 }
+static bool verbose() { static int v = std::getenv("VERIF_C13_VERBOSE") ? 1 : 0; return v; }
 template <class F> static std::string classifyStaged(int& stage, F f) {
 	try { return f(); }
-	catch (const std::runtime_error&) { return "EXC " + std::to_string(stage) + " runtime_error"; }
-	catch (const std::exception&) { return "EXC " + std::to_string(stage) + " std_exception"; }
+	catch (const std::runtime_error& e) { if (verbose()) std::cerr << "stage " << stage << ": " << e.what() << "\n"; return "EXC " + std::to_string(stage) + " runtime_error"; }
+	catch (const std::exception& e) { if (verbose()) std::cerr << "stage " << stage << ": " << e.what() << "\n"; return "EXC " + std::to_string(stage) + " std_exception"; }
 	catch (...) { return "EXC " + std::to_string(stage) + " non_std"; }
 }
 
